@@ -6,7 +6,8 @@ generator API (`construct`: parse + generator object, `generate`), the halves of
 generator also constructed on the spec object ANOTHER generator's construction parsed (`construct k on j`: one `parse()` /
 `Parser.parse()` result handed to several generators with their own app name / prefix / init flag / directory / protocol) —,
 each *process segment* of a history in its own OS process (forked from a zygote that has imported the
-library but never ran a generator), into temp directories outside /verif and /repo (removed afterwards).  After every invocation
+library but never ran a generator; the zygotes are separate INTERPRETERS started with different fixed `PYTHONHASHSEED`s —
+0, 1, 2 and 'random' —, the segments of a history and the fresh single runs take them in turn), into temp directories outside /verif and /repo (removed afterwards).  After every invocation
 the whole tree is snapshotted; `open(..., 'w'|'a')` and `shutil.rmtree` are observed from outside (the worker wraps them), so each
 file is known as the *list of chunks* written to it.  Right after every successful generator invocation a forked child imports
 the package and the modules just generated.
@@ -17,7 +18,12 @@ the package and the modules just generated.
    single runs of every invocation are part of the numbering, so "equal to the fresh output" is part of what is compared);
  * oracle (no model involved): the three clauses of the property against *fresh single runs* of the real generators (fresh
    process, empty directory): same outcome; every file the invocation writes is byte-for-byte the fresh one; a directory that was
-   empty or held only an earlier output of the same target equals the fresh directory; the package imports as the fresh one does.
+   empty or held only an earlier output of the same target equals the fresh directory; the package imports as the fresh one does;
+   "in separate processes": the fresh single run of every invocation is repeated by an interpreter with another hash seed (a
+   replay: by all of them) and the outcome, the import outcome and the whole tree must be equal byte for byte;
+ * the soup-app specs include specs in which a NAME OCCURS TWICE among the enum / record / message definitions (`DUPS`); for the
+   fresh single run of every soup-app invocation `__all__` of the generated module is compared, name by name, with the export list
+   of the text model of the generator (`gen.exports`, Model/GenSoupApp.lean; Props/C17Names.lean: spec order, duplicates kept).
 """
 import copy
 import json
@@ -1608,10 +1614,16 @@ def evaluate(ctx, pool, cases, label_of):
                 first_case.setdefault(fresh_key(ev), ci)
     fresh_real = dict(zip(keys, pool.map(lambda k: fresh_run(pool, fresh_evs[k], 0), keys)))
     # ---- "in separate processes": the same fresh single run by the interpreters of every other hash-seed class
-    pairs = [(k, j) for k in keys for j in range(1, len(HASH_SEEDS))]
+    # (a big batch: ONE other class per invocation, chosen by its content — the invocations of a batch share their specs, every spec
+    # meets every class; a replay / a small batch: all of them)
+    import zlib
+    n_alt = len(HASH_SEEDS) - 1
+    pairs = [(k, j) for k in keys
+             for j in (range(1, n_alt + 1) if len(keys) <= 40 else [1 + zlib.crc32(k.encode()) % n_alt])]
     diffs = pool.map(lambda kj: process_diffs(fresh_real[kj[0]], fresh_run(pool, fresh_evs[kj[0]], kj[1])), pairs)
     seen = set()
-    for (k, j), what in zip(pairs, diffs):
+    # (differences between two FIXED hash seeds are reported first: their replay is deterministic)
+    for (k, j), what in sorted(zip(pairs, diffs), key=lambda x: HASH_SEEDS[x[0][1]] == 'random'):
         ctx.count('fresh-run-repeated-in-another-interpreter')
         if what and k not in seen:
             seen.add(k)
@@ -1630,9 +1642,13 @@ def evaluate(ctx, pool, cases, label_of):
             if ev['dir'][0] == 'app':
                 return [sx(ev_sx({'gen': 'newproj', 't': ev['dir'][1], 'name': ev['dir'][2], 'apps': [[ev['dir'][3], 'ouch']]})), 'newproc']
             return []
-        lines = [f'gen.hist {SEM} ' + ' '.join(pre_sx(fresh_evs[k]) + [sx(ev_sx(fresh_evs[k]))]) for k in keys]
+        # histories in which a generator is constructed on an already parsed spec object (`on`) go to `gen.reuse`
+        # (Model/GenReuse.lean, a superset of `gen.hist`); `memoGroups` is a semantics of that op only
+        def op_of(evs):
+            return 'gen.reuse' if SEM == 'memoGroups' or any(e.get('on') is not None for e in evs) else 'gen.hist'
+        lines = [f'{op_of([])} {SEM} ' + ' '.join(pre_sx(fresh_evs[k]) + [sx(ev_sx(fresh_evs[k]))]) for k in keys]
         modelled = [ci for ci, c in enumerate(cases) if not any(e.get('fault') is not None for e in c)]
-        lines += [f'gen.hist {SEM} ' + ' '.join(sx(ev_sx(e)) for e in cases[ci]) for ci in modelled]
+        lines += [f'{op_of(cases[ci])} {SEM} ' + ' '.join(sx(ev_sx(e)) for e in cases[ci]) for ci in modelled]
         # the text model of the soup-app generator (Model/GenSoupApp.lean; Props/C17Names.lean): `__all__` of the module a fresh
         # single run writes, name by name in the model's order
         soup_keys = [k for k in keys if fresh_evs[k]['gen'] == 'soup']
@@ -1774,7 +1790,10 @@ def run(ctx):
                        'after j wrote; another spec\'s generator in between), each output compared with the fresh process given that '
                        'spec and those options; specs from small families with overlapping '
                        'field names, message ids (also repeated keys), group names, FIX fields of all 29 type names of '
-                       'version_types.py (documented for the version or not); distinct = distinct history, '
+                       'version_types.py (documented for the version or not); soup-app specs in which a name occurs twice (message named like '
+                       'another message / the enum / the record, record named like the enum, enum or record id declared twice); process '
+                       'segments and fresh single runs in interpreters with PYTHONHASHSEED 0 / 1 / 2 / random, every fresh single run '
+                       'repeated under another hash seed; distinct = distinct history, '
                        'non-trivial = at least two invocations')
     pool = Pool(REPO, 12)
     load_flags(ctx)
